@@ -389,6 +389,22 @@ func runC01(c *c01Case) (v *vcommon.Violation, labels []string, nontrivial, inco
 	case porcupine.Unknown:
 		return nil, labels, nontrivial, true
 	case porcupine.Illegal:
+		// "while cluster membership is stable": if the members do not agree on who is there and who owns the hot
+		// keys, the history was not recorded on a stable cluster and says nothing about the property
+		views := map[string]bool{}
+		for _, m := range cl.live() {
+			view := fmt.Sprintf("members=%d/%d", m.db.rt.NumMembers(), m.db.rt.Discovery().NumMembers())
+			for _, k := range keys {
+				for _, o := range m.db.primary.PartitionOwnersByHKey(partitions.HKey(name, k)) {
+					view += " " + o.String()
+				}
+				view += ";"
+			}
+			views[view] = true
+		}
+		if len(views) != 1 || !cl.stableNow() {
+			return nil, labels, nontrivial, true
+		}
 		return fail("not-linearizable", hist, "the recorded history of %d operations has no legal sequential order (per-key register with NX/XX)", len(hist)), labels, nontrivial, false
 	}
 	// final agreement: every member reads the same value for every hot key
